@@ -9,6 +9,10 @@
  *   E <k> <t> <rdi> <rsi>   -pg style entry of f<k> at fake time t with two argument registers
  *   X <t> <rax>             exit of the innermost call at fake time t with a return value
  *   S                       raise(SIGSTOP): hand control to the tracer (recorder catch-up / kill window)
+ *   SIG                     raise(SIGUSR1)   (UFTRACE_SIGNAL=SIGUSR1@finish: the finish flag is set; the next hook
+ *                           call runs mtd_dtor; hook calls are dead afterwards)
+ *   CLOSE                   close the message pipe as mcount_trace_finish() of another thread does (mcount_pfd = -1)
+ *   TEND                    mtd_dtor(&mtd): what the TSD destructor does at a normal thread end
  *   SEGV                    raise(SIGSEGV)   (libmcount's segv_handler flushes the open calls)
  *   ABRT                    abort()
  *   EXIT                    _exit(0)
@@ -56,7 +60,8 @@ static void (*const funcs[])(void) = { f0, f1, f2,  f3,	 f4,  f5,  f6,	f7,
 extern int mcount_entry(unsigned long *parent_loc, unsigned long child, struct mcount_regs *regs);
 extern unsigned long mcount_exit(long *retval);
 
-enum { OP_E, OP_X, OP_S, OP_SEGV, OP_ABRT, OP_EXIT, OP_END };
+enum { OP_E, OP_X, OP_S, OP_SEGV, OP_ABRT, OP_EXIT, OP_END, OP_SIG, OP_CLOSE, OP_TEND };
+extern TLS struct mcount_thread_data mtd;
 struct sop {
 	int kind, k;
 	unsigned long long t;
@@ -71,7 +76,7 @@ int main(int argc, char **argv)
 {
 	FILE *fp;
 	char line[256];
-	int i, sp = 0;
+	int i, sp = 0, finished = 0;
 
 	if (argc < 2)
 		return 2;
@@ -102,6 +107,12 @@ int main(int argc, char **argv)
 			o->kind = OP_EXIT;
 		else if (!strcmp(op, "END"))
 			o->kind = OP_END;
+		else if (!strcmp(op, "SIG"))
+			o->kind = OP_SIG;
+		else if (!strcmp(op, "CLOSE"))
+			o->kind = OP_CLOSE;
+		else if (!strcmp(op, "TEND"))
+			o->kind = OP_TEND;
 		else
 			continue;
 		nops++;
@@ -122,20 +133,42 @@ int main(int argc, char **argv)
 			regs.rsi = o->a2;
 			fake_now = o->t;
 			frames[sp][0] = 0xdead0000UL + sp;
-			if (mcount_entry(&frames[sp][0], (unsigned long)funcs[o->k % NFUNC] + 4, &regs) != 0)
-				_exit(90); /* the script never asks for a rejected call */
+			if (mcount_entry(&frames[sp][0], (unsigned long)funcs[o->k % NFUNC] + 4, &regs) != 0) {
+				if (!finished)
+					_exit(90); /* the script never asks for a rejected call */
+				finished = 2;
+				break;		   /* after finish / thread end the hooks are dead */
+			}
+			if (o->k % NFUNC == 14)
+				finished = 2;	   /* f14@finish: mtd_dtor ran when the hook was left */
 			sp++;
 			break;
 		}
 		case OP_X: {
 			long rv[4] = { (long)o->a1, 0, 0, 0 };
+			if (finished == 2 || sp <= 0)
+				break;		   /* the return stack is gone */
 			fake_now = o->t;
 			mcount_exit(rv);
 			sp--;
+			if (finished)
+				finished = 2;
 			break;
 		}
 		case OP_S:
 			raise(SIGSTOP);
+			break;
+		case OP_SIG:
+			raise(SIGUSR1);
+			finished = 1; /* the next hook call runs mtd_dtor (an exit hook still records first) */
+			break;
+		case OP_CLOSE:
+			close(mcount_pfd);
+			mcount_pfd = -1;
+			break;
+		case OP_TEND:
+			mtd_dtor(&mtd);
+			finished = 2;
 			break;
 		case OP_SEGV:
 			raise(SIGSEGV);
